@@ -197,6 +197,19 @@ def cases(it, S):
     add("annotation collection with end but no start", "gene.collections:AnnotationCollection.__init__", lambda: mk_collection(it, None, None, end=3), {"InvalidAnnotationError"})
     add("annotation collection with two equal genes", "gene.collections:AnnotationCollection.hierarchical_children_guids",
         lambda: it.getattr(mk_collection(it, [mk_gene(it, [t1()], gene_id="g"), mk_gene(it, [t1()], gene_id="g")], None), "hierarchical_children_guids", None, 0), {"InvalidAnnotationError"})
+    # moving an interval to a parent of another chromosome is refused - with and without sequence on either side
+    ST = it.enum("SequenceType")
+    fmv = "gene.interval:AbstractInterval.liftover_to_parent_or_seq_chunk_parent"
+    bare1 = lambda: mk_parent(it, id="chr1", sequence_type=ST["CHROMOSOME"])  # noqa: E731
+    bare2 = lambda: mk_parent(it, id="chr2", sequence_type=ST["CHROMOSOME"])  # noqa: E731
+    add("interval moved to another chromosome (no sequences)", fmv,
+        lambda: it.call_func(it.repo.fn(fmv), [bare2()], {}, mk_feature(it, [(3, 9)], S["PLUS"], parent_or_seq_chunk_parent=bare1()), 0), {"MismatchedParentException"})
+    add("interval moved to another chromosome (target has sequence)", fmv,
+        lambda: it.call_func(it.repo.fn(fmv), [chrom_parent(it, GENOME, seq_id="chr2")], {}, mk_feature(it, [(3, 9)], S["PLUS"], parent_or_seq_chunk_parent=bare1()), 0),
+        {"MismatchedParentException"})
+    add("interval moved to another chromosome (both have sequence)", fmv,
+        lambda: it.call_func(it.repo.fn(fmv), [chrom_parent(it, GENOME, seq_id="chr2")], {}, mk_feature(it, [(3, 9)], S["PLUS"], parent_or_seq_chunk_parent=par), 0),
+        {"MismatchedParentException"})
     # the data model of a sequence-chunk parent: name, start and end are each required
     pm = lambda **kw: it.call_func(it.repo.fn("io.models:ParentModel.to_parent"), [], {},  # noqa: E731
                                    it.apply(ClassTok("ParentModel"), [], dict(seq="ACGTACGT", type="SEQUENCE_CHUNK", **kw), None, 0), 0)
